@@ -14,7 +14,7 @@ func init() {
 	register(&propDef{
 		ID:      "C15",
 		Level:   "other",
-		Explain: "Configuration loading, decided structurally; sites are found by what they do (calls of the flag / strings / properties API, fields of config.Config, the set-map of config.FlagSet) inside the region of an exported entry point (config.Load, config.FlagSet.ParseFlags, HTTPProxy.ServeHTTP), never by the name of an unexported function or variable. (R1) for every flag definition flag.FlagSet.<T>Var(&v, name, default, usage) in package config - also inside wrappers (methods of config.FlagSet, local closures, extracted helpers: expanded per call) - v is a field path P of the Config being filled and the default is the same path P of the default configuration (exceptions are a frozen, reasoned table keyed by flag name); options parsed into a local take the field of the defaults table that belongs to that local; no two flags bind the same variable, and no two flag names collide case-insensitively (the environment lookup upper-cases them); (R2) in FlagSet.ParseFlags the command line is parsed before the flags it set are marked (Visit) and that before the fallback pass (VisitAll); in the fallback pass every assignment of a value (flag.FlagSet.Set / flag.Value.Set) is under the test that the flag is not yet marked, under the presence bit of the source the value comes from (comma-ok of the environment map, second result of Properties.Get, possibly handed on through helper results) and not under a test of the value itself; every assignment is accompanied by marking the flag; no assignment can follow another one; the properties are not consulted before the environment, and their value becomes the assigned one only on paths that left a test of the environment's presence bit on its false edge; (R3) the callers of ParseFlags pass the prefixes [\"FABIO_\", \"\"] in that order, the environment map is keyed by the case-normalised complete variable name and consulted under normalise(prefix + Replace(name, \".\", \"_\")) with the same normalisation; (P*) partial operations reachable from config.Load (Split/SplitN indices, slice bounds from Index*) are guarded; (V1) every int option that flows into an allocation size, channel capacity or status code is compared with a constant somewhere in the loading region, the failing outcome inevitably returns an error, the test dominates every successful return (it is not conditional on another option) and the error is handed on up to config.Load - or the value is clamped at the sink; (V2) values built from configuration at start-up are not used on the path on which their constructor's error was observed and only logged; (V3) enumerated options are validated raw (equality tests, switch, slices.Contains / set literal / helper given a literal list) against exactly the keys of the registries they index. Not decided: equality of the resulting Config across sources for every value of every type (behaviour of flag.Value.Set per type; R2 shows all sources use it).",
+		Explain: "Configuration loading, decided structurally; sites are found by what they do (calls of the flag / strings / properties API, fields of config.Config, the set-map of config.FlagSet) inside the region of an exported entry point (config.Load, config.FlagSet.ParseFlags, HTTPProxy.ServeHTTP), never by the name of an unexported function or variable. (R1) for every flag definition flag.FlagSet.<T>Var(&v, name, default, usage) in package config - also inside wrappers (methods of config.FlagSet, local closures, extracted helpers: expanded per call) - v is a field path P of the Config being filled and the default is the same path P of the default configuration (exceptions are a frozen, reasoned table keyed by flag name); options parsed into a local take the field of the defaults table that belongs to that local; no two flags bind the same variable, and no two flag names collide case-insensitively (the environment lookup upper-cases them); (R2) in FlagSet.ParseFlags the command line is parsed before the flags it set are marked (Visit) and that before the fallback pass (VisitAll); every assignment of a fallback value (flag.FlagSet.Set / flag.Value.Set anywhere in the region of ParseFlags: in the VisitAll callback, or in a later pass such as a loop over the keys of the properties, which must then follow the pass over the environment) is under the test that the flag is not yet marked, under the presence bit of the source the value comes from (comma-ok of the environment map, second result of Properties.Get, possibly handed on through helper results; a key taken from Properties.Keys() is present by construction) and not under a test of the value itself; every assignment is accompanied by marking the flag; no assignment can follow another one; the properties are not consulted before the environment, and their value becomes the assigned one only on paths that left a test of the environment's presence bit on its false edge; (R3) the callers of ParseFlags pass the prefixes [\"FABIO_\", \"\"] in that order, the environment map is keyed by the case-normalised complete variable name and consulted under normalise(prefix + Replace(name, \".\", \"_\")) with the same normalisation; (P*) partial operations reachable from config.Load (Split/SplitN indices, slice bounds from Index*) are guarded; (V1) every int option that flows into an allocation size, channel capacity or status code is compared with a constant somewhere in the loading region, the failing outcome inevitably returns an error, the test dominates every successful return (it is not conditional on another option) and the error is handed on up to config.Load - or the value is clamped at the sink; (V2) values built from configuration at start-up are not used on the path on which their constructor's error was observed and only logged; (V3) enumerated options are validated raw (equality tests, switch, slices.Contains / set literal / helper given a literal list) against exactly the keys of the registries they index. Not decided: equality of the resulting Config across sources for every value of every type (behaviour of flag.Value.Set per type; R2 shows all sources use it).",
 		Run:     runC15,
 		Trusted: []string{"package flag: Visit visits flags set on the command line, VisitAll all flags, Set goes through flag.Value.Set", "magiconair/properties.Get"},
 		Mutants: append([]mutant{
@@ -34,7 +34,7 @@ func init() {
 			{Name: "consul cert source continues after a failed setup", File: "cert/consul_source.go", Old: "\t\tlog.Printf(\"[ERROR] cert: Failed to create consul client. %s\", err)\n\t\treturn nil", New: "\t\tlog.Printf(\"[ERROR] cert: Failed to create consul client. %s\", err)", Expect: "C15.V2"},
 			{Name: "strategy validated case-insensitively", File: "config/load.go", Old: "if cfg.Proxy.Strategy != \"rr\" && cfg.Proxy.Strategy != \"rnd\" {", New: "if s := strings.ToLower(cfg.Proxy.Strategy); s != \"rr\" && s != \"rnd\" {", Expect: "C15.V3"},
 			{Name: "benign: registration reordered", File: "config/load.go", Old: "\tf.BoolVar(&cfg.Insecure, \"insecure\", defaultConfig.Insecure, \"allow fabio to run as root when set to true\")\n\tf.IntVar(&cfg.Proxy.MaxConn, \"proxy.maxconn\", defaultConfig.Proxy.MaxConn, \"maximum number of cached connections\")", New: "\tf.IntVar(&cfg.Proxy.MaxConn, \"proxy.maxconn\", defaultConfig.Proxy.MaxConn, \"maximum number of cached connections\")\n\tf.BoolVar(&cfg.Insecure, \"insecure\", defaultConfig.Insecure, \"allow fabio to run as root when set to true\")", Expect: ""},
-		}, c15MoreMutants...),
+		}, append(append([]mutant{}, c15MoreMutants...), c15round4R2Mutants...)...),
 	})
 }
 
@@ -228,6 +228,7 @@ type c15reg struct {
 	hasPtr   bool
 	hasDef   bool
 	ptr, def c15path
+	ptrT     types.Type // type of the pointer the flag is bound to
 	pos      token.Pos
 }
 
@@ -287,6 +288,7 @@ func c15registrations(c *Ctx) []c15reg {
 		if ptrV != nil {
 			reg.hasPtr = true
 			reg.ptr = r.path(ptrV, ctx, 0)
+			reg.ptrT = ptrV.Type()
 		}
 		if defV != nil {
 			reg.hasDef = true
